@@ -27,18 +27,20 @@ Initial(k) == CASE k = "i32" -> V("Int32", FALSE, <<5>>)
                 [] k = "ba" -> V("Byte", TRUE, <<1, 2, 3, 4>>)
                 [] OTHER -> V("Unreadable", FALSE, <<>>)
 
-\* index range strings of the input space: [k (none / one / bad = not a range / multi = more than one dimension), lo, hi]
-Ranges == {"", "0", "1", "3", "4", "1:2", "0:9", "3:5", "2:1", "1,2", "a"}
-RangeSpec(r) == CASE r = "" -> [k |-> "none", lo |-> 0, hi |-> 0]
-                  [] r = "0" -> [k |-> "one", lo |-> 0, hi |-> 0]
-                  [] r = "1" -> [k |-> "one", lo |-> 1, hi |-> 1]
-                  [] r = "3" -> [k |-> "one", lo |-> 3, hi |-> 3]
-                  [] r = "4" -> [k |-> "one", lo |-> 4, hi |-> 4]
-                  [] r = "1:2" -> [k |-> "one", lo |-> 1, hi |-> 2]
-                  [] r = "0:9" -> [k |-> "one", lo |-> 0, hi |-> 9]
-                  [] r = "3:5" -> [k |-> "one", lo |-> 3, hi |-> 5]
-                  [] r = "1,2" -> [k |-> "multi", lo |-> 0, hi |-> 0]
-                  [] OTHER -> [k |-> "bad", lo |-> 0, hi |-> 0]
+\* An index range of the input space is [k, lo, hi, s]: s = the string sent; k = "none" (no range), "one" (index lo = hi, or lo:hi),
+\* "multi" (more than one dimension), "bad" (not a range at all).
+One(lo, hi) == [k |-> "one", lo |-> lo, hi |-> hi, s |-> IF lo = hi THEN ToString(lo) ELSE ToString(lo) \o ":" \o ToString(hi)]
+Odd(s) == [k |-> IF s = "" THEN "none" ELSE IF s = "1,2" THEN "multi" ELSE "bad", lo |-> 0, hi |-> 0, s |-> s]
+\* ranges chosen relative to the length n of the value they are applied to
+RelPair(name, n) == CASE name = "last" -> <<n - 1, n - 1>>           \* the last element
+                      [] name = "lastover" -> <<n - 1, n>>          \* starts at the last element, ends beyond
+                      [] name = "past" -> <<n, n + 1>>              \* starts at the first index past the end
+                      [] name = "pastidx" -> <<n, n>>
+                      [] name = "beyond" -> <<n + 1, n + 2>>
+                      [] name = "whole" -> <<0, n - 1>>
+                      [] name = "wholeover" -> <<0, n>>
+                      [] OTHER -> <<0, n + 5>>                      \* "overhang"
+Rel(names, n) == {One(p[1], p[2]) : p \in {q \in {RelPair(x, n) : x \in names} : q[1] >= 0 /\ q[1] <= q[2]}}
 
 Attrs == {"Value", "DisplayName", "AccessLevel", "Id0", "Id99"}
 AttrKnown(a) == a \in {"Value", "DisplayName", "AccessLevel"}
@@ -46,7 +48,7 @@ AttrKnown(a) == a \in {"Value", "DisplayName", "AccessLevel"}
 \* the values a Write offers, by class of value type
 Min2(a, b) == IF a < b THEN a ELSE b
 Seq4(n, base) == [i \in 1..n |-> base + i]
-WLen(r) == LET s == RangeSpec(r) IN IF s.k = "one" THEN Min2(s.hi - s.lo + 1, 4) ELSE 1
+WLen(r) == IF r.k = "one" THEN Min2(r.hi - r.lo + 1, 4) ELSE 1
 VTs(k) == {"same", "wrong", "empty", "null"}
           \cup (IF k \in {"i32", "i32a"} THEN {"conv"} ELSE {})
           \cup (IF k \in {"i32a", "ba"} THEN {"scalar4arr"} ELSE {})
@@ -55,7 +57,7 @@ VTs(k) == {"same", "wrong", "empty", "null"}
           \cup (IF k = "bs" THEN {"ba4bs"} ELSE {})
           \cup (IF k = "none" THEN {} ELSE {})
 WVal(k, vt, r) ==
-  LET n == IF r = "" THEN (IF k = "ustr" THEN 3 ELSE 4) ELSE WLen(r)
+  LET n == IF r.k = "none" THEN (IF k = "ustr" THEN 3 ELSE 4) ELSE WLen(r)
   IN CASE vt = "same" -> (CASE k = "i32" -> V("Int32", FALSE, <<7>>)
                             [] k = "i32a" -> V("Int32", TRUE, Seq4(n, 70))
                             [] k = "str" -> V("String", FALSE, Seq4(n, 118))                               \* "wxyz"
@@ -73,7 +75,8 @@ WVal(k, vt, r) ==
        [] OTHER -> V("None", FALSE, <<>>)
 
 -----------------------------------------------------------------------------
-CONSTANTS DevByteIndexedStrings   \* UAString::substring slices the UTF-8 bytes: a cut inside a character panics
+CONSTANTS DevByteIndexedStrings,  \* UAString::substring slices the UTF-8 bytes: a cut inside a character panics
+          DevPastEndAccepted      \* set_range_of accepts lo:hi with lo = length of the array: Good, nothing stored (not in the pinned tree)
 
 VARIABLES val,    \* node (kind, access) -> value
           evt
@@ -93,7 +96,7 @@ Boundary(s, b) == \E i \in 0..Len(s) : Off(s, i) = b
 
 \* Variant::range_of
 RangeOf(v, r) ==
-  LET s == RangeSpec(r)
+  LET s == r
       n == Len(v.v)
   IN IF s.k = "none" THEN [st |-> "Good", fail |-> FALSE, v |-> v]
      ELSE IF s.k # "one" \/ v.t \in {"Empty", "Unreadable"} THEN [st |-> "Bad", fail |-> FALSE, v |-> V("None", FALSE, <<>>)]
@@ -110,7 +113,7 @@ RangeOf(v, r) ==
      ELSE [st |-> "Good", fail |-> FALSE, v |-> V(v.t, v.a, SubSeq(v.v, s.lo + 1, Min2(s.hi + 1, n)))]
 
 ReadRes(k, acc, attr, r) ==
-  LET s == RangeSpec(r)
+  LET s == r
       bad == [st |-> "Bad", fail |-> FALSE, v |-> V("None", FALSE, <<>>)]
   IN IF k = "none" \/ ~AttrKnown(attr) \/ s.k = "bad" THEN bad
      ELSE IF attr # "Value" THEN (IF s.k # "none" THEN bad
@@ -125,14 +128,14 @@ TypeOK(k, w) ==
   \/ (~w.a /\ w.t = "ByteString" /\ k = "ba")
 \* Variant::set_range_of
 SetRange(cur, r, w) ==
-  LET s == RangeSpec(r)
+  LET s == r
       n == Len(cur.v)
   IN IF ~(cur.a /\ w.a /\ cur.t = w.t) \/ s.k # "one" THEN [ok |-> FALSE, v |-> cur]
-     ELSE IF s.lo >= n \/ w.v = <<>> THEN [ok |-> FALSE, v |-> cur]
+     ELSE IF (IF DevPastEndAccepted /\ s.lo < s.hi THEN s.lo > n ELSE s.lo >= n) \/ w.v = <<>> THEN [ok |-> FALSE, v |-> cur]
      ELSE [ok |-> TRUE, v |-> V(cur.t, TRUE, [i \in 1..n |-> IF i - 1 >= s.lo /\ i - 1 <= s.hi /\ i - s.lo <= Len(w.v) THEN w.v[i - s.lo] ELSE cur.v[i]])]
 
 WriteRes(k, acc, attr, r, w) ==
-  LET s == RangeSpec(r)
+  LET s == r
       cur == Cur(k, acc)
       bad == [st |-> "Bad", v |-> cur]
       w1 == IF k = "ba" /\ w.t = "ByteString" /\ ~w.a THEN V("Byte", TRUE, w.v) ELSE w     \* Variable::set_value
@@ -143,15 +146,19 @@ WriteRes(k, acc, attr, r, w) ==
      ELSE IF s.k = "none" THEN [st |-> "Good", v |-> w1]
      ELSE LET x == SetRange(cur, r, w1) IN IF x.ok THEN [st |-> "Good", v |-> x.v] ELSE bad
 
-Rec(ev, k, acc, attr, r) == [ev |-> ev, k |-> k, acc |-> acc, attr |-> attr, range |-> r, vt |-> "", w |-> V("None", FALSE, <<>>),
+Rec(ev, k, acc, attr, r) == [ev |-> ev, k |-> k, acc |-> acc, attr |-> attr, range |-> r.s, rk |-> r.k, lo |-> r.lo, hi |-> r.hi, vt |-> "", w |-> V("None", FALSE, <<>>),
                              fail |-> "none", site |-> "", status |-> "", cls |-> "", value |-> V("None", FALSE, <<>>),
-                             before |-> Cur(k, acc), after |-> Cur(k, acc)]
+                             before |-> Cur(k, acc), after |-> Cur(k, acc),
+                             rcls |-> "", rvalue |-> V("None", FALSE, <<>>)]     \* Write of Value with a range: a Read of the same range right after
 
 Write(k, acc, attr, r, vt) ==
   LET w == WVal(k, vt, r)
       x == WriteRes(k, acc, attr, r, w)
+      follow == attr = "Value" /\ r.k # "none"
+      rr == IF k = "none" \/ r.k = "bad" THEN [st |-> "Bad", fail |-> FALSE, v |-> V("None", FALSE, <<>>)] ELSE RangeOf(x.v, r)
   IN /\ val' = IF k = "none" THEN val ELSE [val EXCEPT ![NodeKey(k, acc)] = x.v]
-     /\ evt' = [Rec("Write", k, acc, attr, r) EXCEPT !.vt = vt, !.w = w, !.cls = x.st, !.status = x.st, !.after = x.v]
+     /\ evt' = [Rec("Write", k, acc, attr, r) EXCEPT !.vt = vt, !.w = w, !.cls = x.st, !.status = x.st, !.after = x.v,
+                                                  !.rcls = IF follow THEN rr.st ELSE "", !.rvalue = IF follow THEN rr.v ELSE V("None", FALSE, <<>>)]
 
 Read(k, acc, attr, r) ==
   LET x == ReadRes(k, acc, attr, r)
